@@ -39,7 +39,13 @@ def verify(pid, x):
     wt = wt_for(mid)
     sh(["git", "-C", wt, "checkout", "--", "."])
     res = {"id": mid, "property": pid}
-    flags = EXTRA.get(mid, [])
+    flags = list(EXTRA.get(mid, []))
+    for nf in (os.path.join(out, x + ".notes.md"), os.path.join(SEED_OUT, mid, "notes.md")):
+        if os.path.exists(nf):
+            m = re.search(r"^\W*flags:\s*`?([^`\n]*)`?", open(nf).read(), flags=re.M)
+            if m:
+                flags += [f for f in m.group(1).split() if f.startswith("-")]
+            break
     exe = os.path.join(MUT, "demo-" + mid)
 
     def run_demo():
